@@ -37,7 +37,13 @@ func (db *DB) SetMode(m mode.Mode) error {
 	}
 
 	if err != nil {
-		return fmt.Errorf("can't set metabase mode (old=%s, new=%s): %w", db.mode, m, err)
+		err = fmt.Errorf("can't set metabase mode (old=%s, new=%s): %w", db.mode, m, err)
+		// DB has been closed and could not be reopened, so it can not serve
+		// requests. Degraded mode makes them fail with an error instead of nil
+		// dereference and lets the next SetMode call open the DB again.
+		db.boltDB = nil
+		db.mode = mode.DegradedReadOnly
+		return err
 	}
 
 	db.mode = m
